@@ -8,6 +8,7 @@ import (
 	"sort"
 	"strings"
 
+	"github.com/prometheus/prometheus/promql"
 	"github.com/prometheus/prometheus/promql/parser"
 
 	"github.com/thanos-community/promql-engine/engine"
@@ -143,13 +144,37 @@ func famRangeInstant(sc *scn.Scenario, em func(vt.Ev)) {
 	eng := engine.New(run.EngineOpts(sc, "default", true, nil))
 	st := run.Store(sc)
 	full := run.Exec(context.Background(), eng, st.Clone(), sc, false)
-	if full.CreateErr != nil || full.C.Err != "" {
-		em(vt.Ev{"ev": "skip", "why": "range query not native or failing", "q": q})
+	if full.CreateErr != nil {
+		em(vt.Ev{"ev": "skip", "why": "range query not native", "q": q})
 		em(vt.Ev{"ev": "end"})
 		return
 	}
-	cl := newClassifier()
 	n := (sc.End-sc.Start)/sc.Step + 1
+	if full.C.Err != "" {
+		// a failing range query is the sequence of its instant queries when one of them fails too. The reference
+		// engine also fails a range query as a whole when two series of equal label sets yield anywhere in the
+		// window (never at the same step), which no instant query sees: then the engine follows the reference
+		// (C01) and the scenario says nothing here. Otherwise the failure is compared like any other result.
+		explained := false
+		for i := int64(0); i < n && !explained; i++ {
+			t := sc.Start + i*sc.Step
+			isc := *sc
+			isc.Start, isc.End, isc.Step = t, t, 0
+			out := run.Exec(context.Background(), eng, st.Clone(), &isc, false)
+			explained = out.CreateErr != nil || out.C.Err != ""
+		}
+		if !explained {
+			ref := promql.NewEngine(run.PromOpts(sc.Dur(sc.LB)))
+			rout := run.Exec(context.Background(), ref, st.Clone(), sc, true)
+			explained = rout.CreateErr != nil || rout.C.Err != ""
+		}
+		if explained {
+			em(vt.Ev{"ev": "skip", "why": "range query failing as its instant queries or the reference do", "q": q})
+			em(vt.Ev{"ev": "end"})
+			return
+		}
+	}
+	cl := newClassifier()
 	obs := func(t int64, o Obs, src string) {
 		key := fmt.Sprintf("t=%d", t)
 		em(vt.Ev{"ev": "obs", "key": key, "cls": cl.class(key, o), "src": src, "desc": o.String()})
